@@ -363,6 +363,8 @@ def _v_sleep(secs):
     n = getattr(_tls, "node", None)
     if n is None:
         return REAL_SLEEP(secs)
+    if secs < 0:  # as the real time.sleep() does
+        raise ValueError("sleep length must be non-negative")
     n.v_sleep(secs)
     return None
 
